@@ -158,3 +158,74 @@ add('C16-parameter-change-test-wrong-variable', 'mut16', 2, 'C16',
     needs="a sender with equal data and parity counts and a receiver with the same data count but a different parity count (2/2 vs 2/1, 10/10 vs 10/3)",
     checks={'C16 quick': "caught: 20 runs, C16/fec-convergence/not-converged 'the decoder is at 100/33, the sender uses 100/100' (1 run before the generator drew related pairs deliberately)"},
     notes="First evaluation: 1 run of 3860. The generator drew sender and receiver ratios independently; it now draws related pairs (same data count, same parity count, same sum, swapped, equal counts at the sender) in a third of the mismatch runs.")
+
+add('C14-listener-error-walk-without-lock', 'mut14', 1, 'C14',
+    "Listener.notifyReadError walks the session map without sessionLock (inside a sync.Once, so it still looks protected)",
+    change="sess.go notifyReadError: l.sessionLock.RLock()/RUnlock() around the range over l.sessions dropped",
+    needs="the listener's own socket read failing at the same moment an accepted session is being closed from another goroutine",
+    checks={'C14 quick': 'caught: 74 runs, C14/race/(*Listener).closeSession|(*Listener).monitor.(*Listener).notifyReadError.func1 (race detector)'},
+    notes="Caught by the teardown modes of the race scenario (socket read / write errors injected under the crowd, sessions closed from goroutines of their own while the listener's socket fails), which were added during this wave before this change was evaluated; the earlier scenario closed everything in a fixed orderly sequence and never drove notifyReadError concurrently with Close (not measured against the earlier version).")
+
+add('C14-nonatomic-shared-counter', 'mut14', 2, 'C14',
+    "DefaultSnmp.FECRecovered is incremented with += instead of atomic.AddUint64: two sessions race on the process-wide counter",
+    change="fec.go decode: atomic.AddUint64(&DefaultSnmp.FECRecovered, n)  ->  DefaultSnmp.FECRecovered += n",
+    needs="FEC configured, a data shard lost with parity arriving (recovery path), in two sessions at overlapping moments (or concurrently with a reader of the counters)",
+    checks={'C14 quick': 'caught: 151 runs, C14/race/(*Snmp).ToSlice|(*fecDecoder).decode and (*fecDecoder).decode|(*fecDecoder).decode'})
+
+add('C17-heap-compares-unix-nanoseconds', 'mut17', 1, 'C17',
+    "the scheduler's heap compares ts.UnixNano(): a deadline beyond year 2262 overflows to a negative key, sorts first and the worker sleeps ~292 years",
+    change="timedsched.go Less: h[i].ts.Before(h[j].ts)  ->  h[i].ts.UnixNano() < h[j].ts.UnixNano()",
+    needs="a pending deadline beyond the range of int64 nanoseconds since 1970 together with a nearer task on the same worker",
+    checks={'C17 quick': "caught: 574 runs, C17/promptly/task-not-run (deadline class 'centuries away', added in response)"},
+    notes="First evaluation not run: by construction the far-future class stopped at 100 hours, which no int64 overflow reaches; the generator now also draws deadlines ~292 years away (never due within a run; a run that executes one is caught by never-early).")
+
+add('C17-prepend-notification-unbuffered', 'mut17', 2, 'C17',
+    "chPrependNotify loses its capacity of 1: Put's non-blocking send is dropped whenever the prepend goroutine is busy, the task sits until some later Put",
+    change="timedsched.go: make(chan struct{}, 1)  ->  make(chan struct{})",
+    needs="a Put racing with the prepend goroutine mid-forward and no later Put to flush it",
+    checks={'C17 quick': 'caught: 159 runs, C17/promptly/task-ran-late and task-not-run (yield points sched.put / sched.prepend / sched.task decide the interleaving)'})
+
+add('C18-resend-test-not-wrap-aware', 'mut18', 1, 'C18',
+    "flush tests 'current >= segment.resendts' instead of the wrap-aware difference: a segment first sent less than one RTO before the 32-bit millisecond clock wraps is retransmitted at every flush",
+    change="kcp.go flush: _itimediff(current, segment.resendts) >= 0  ->  current >= segment.resendts",
+    needs="the 32-bit millisecond clock wrapping (49.7 days of uptime) while data is in flight",
+    also=['C12'],
+    checks={'C18 quick': "caught: 25 runs, C18/clean-path/retransmission 'sn 0 transmitted 2 times on a clean path' (clean path across the clock wrap, added in response; missed before)",
+            'C12 quick': 'caught: 190 runs, C12/metamorphic/trace-differs'},
+    notes="The clean-path strata started every run at clock 0. A third of the session-level clean-path runs now start near 2^32 or 2^31 ms.")
+
+add('C18-rto-upper-bound-dropped', 'mut18', 2, 'C18',
+    "update_ack no longer clamps rx_rto to 60 s",
+    change="kcp.go update_ack: min(max(rx_minrto, rto), IKCP_RTO_MAX)  ->  max(rx_minrto, rto)",
+    needs="an ACK whose echoed timestamp is tens of seconds old (forged, or a genuine RTT above ~20 s)",
+    checks={'C18 quick': "caught: 419 runs, C18/rto-bound/rto-out-of-bounds 'rto=862333885 outside [100,60000]' (core-forge) and 'GetRTO()=74880' at session level"})
+
+add('C15-dup-copies-share-one-buffer', 'mut15', 1, 'C15',
+    "postProcess queues the SAME pooled buffer dup times for SetDUP(n) and recycles every queue entry: one Get, n Puts",
+    change="sess.go postProcess: one buffer acquired outside the dup loop and appended dup times",
+    needs="SetDUP(n) with n >= 2 (a deprecated testing knob of the library; 0 and 1 behave as before)",
+    checks={'C15 quick': "caught: 39 runs, C15/pool/double-recycle 'buffer recycled while not owned' (pool sanitizer; SetDUP drawn in ~6 % of the transfer runs, added in response)"},
+    notes="Not reachable before: the harness never called SetDUP. It is now part of the session configuration on a tape stream of its own, and the wire oracle recognises the configured duplicates.")
+
+add('C15-recheck-before-backlog-push', 'mut15', 2, 'C15',
+    "Listener.packetInput re-checks 'listener closed?' BEFORE pushing the new session to the backlog instead of after: a session lands on the backlog of a closed listener and lives for ever",
+    change="sess.go Listener.packetInput: the select on l.die / closePendingSessions moved above l.chAccepts <- s",
+    needs="Listener.Close() running exactly while the first packet of a new peer is between the 'closed?' test and the backlog push",
+    checks={'C15 quick': "caught: 289 runs, C15/leak/callback-after-close '36000 scheduled session callbacks still ran more than 12s after everything was closed' (stratum peers/listener-close, added in response; missed before)"},
+    notes="First evaluation: missed. The yield points listener.newsess / listener.accept existed in /repo (hook H5) but no scenario parked there. The new stratum parks the listener's receive goroutine at the k-th hit of one of them, lets the application close the listener, then releases it.")
+
+add('C19-oob-size-check-ignores-conv', 'mut19', 1, 'C19',
+    "SendOOB compares len(data) instead of the full size with the MTU: payloads 1..4 bytes above GetOOBMaxSize() are accepted",
+    change="sess.go SendOOB: if size > int(s.kcp.mtu)  ->  if len(data) > int(s.kcp.mtu)",
+    needs="a payload in the 4-byte band just above GetOOBMaxSize() (max+5 is still refused)",
+    also=['C10'],
+    checks={'C19 quick': "caught: 603 runs, C19/refusal/oversize-accepted 'SendOOB accepted 62 bytes, GetOOBMaxSize() is 61'",
+            'C10 quick': "caught: 317 runs, C10/mtu/datagram-exceeds-mtu 'datagram of 1401 bytes exceeds MTU 1400' and C10/survive/panic-in-sendoob (slice bounds out of range [:1501] with capacity 1500)"})
+
+add('C19-foreign-conversation-oob-resets-session', 'mut19', 2, 'C19',
+    "Listener.packetInput lets an OOB packet with a foreign conversation id count as the start of a conversation (re-opens the defect repaired by 9eed4b2)",
+    change="sess.go Listener.packetInput: if sn != 0 || fecFlag == typeOOB { return }  ->  if sn != 0 { return }",
+    needs="an OOB datagram delayed by the network (or forged) arriving after the same address opened a new conversation",
+    also=['C11'],
+    checks={'C19 quick': 'caught: 20 runs, C19/C11-accept/wrong-conversation',
+            'C11 quick': 'caught: 8 runs, C11/accept/wrong-conversation and C11/isolation/session-failed'})
